@@ -530,11 +530,20 @@ func c17Sibling(c *Ctx, p *Prog) {
 		}
 		c.Check("C17.S", "cachingStore."+m.Name(), p, fn.Pos(), bad == "", "delegates to BackingStore."+m.Name()+" with its own parameters in the same positions"+map[bool]string{true: " (pure delegation)", false: ""}[pure[m.Name()]], "cachingStore."+m.Name()+" "+bad)
 	}
+	ruleStoreKeys(c, p, "C17.S")
+}
+
+// ruleStoreKeys: cache/datastore keys are injective encodings of (backend ID,
+// request ID) and are built from the same roles on the write and read side.
+func ruleStoreKeys(c *Ctx, p *Prog, rule string) {
 	// key constructors are injective encodings of their components
-	for _, kf := range []struct{ fn string; n int }{{"app/cache.memcacheRequestKey", 2}, {"app/cache.memcacheResponseKey", 2}, {"app/store.requestKind", 1}} {
+	for _, kf := range []struct {
+		fn string
+		n  int
+	}{{"app/cache.memcacheRequestKey", 2}, {"app/cache.memcacheResponseKey", 2}, {"app/store.requestKind", 1}} {
 		f := p.Func(kf.fn)
 		if f == nil {
-			c.Unk("C17.S", "key-injective:"+kf.fn, p, 0, "key constructor not found")
+			c.Unk(rule, "key-injective:"+kf.fn, p, 0, "key constructor not found")
 			continue
 		}
 		ok := false
@@ -559,7 +568,7 @@ func c17Sibling(c *Ctx, p *Prog) {
 				}
 			}
 		}
-		c.Check("C17.S", "key-injective:"+kf.fn, p, f.Pos(), ok, "the key is fmt.Sprintf with every component quoted (%q): distinct (backend ID, request ID) pairs give distinct keys", "key constructor "+kf.fn+": "+why+": components containing the delimiter make different (backend ID, request ID) pairs collide, so one backend's agent can read or answer another backend's requests")
+		c.Check(rule, "key-injective:"+kf.fn, p, f.Pos(), ok, "the key is fmt.Sprintf with every component quoted (%q): distinct (backend ID, request ID) pairs give distinct keys", "key constructor "+kf.fn+": "+why+": components containing the delimiter make different (backend ID, request ID) pairs collide, so one backend's agent can read or answer another backend's requests")
 	}
 	// memcache key roles
 	for _, pair := range [][3]string{{"WriteRequest", "ReadRequest", "memcacheRequestKey"}, {"WriteResponse", "ReadResponse", "memcacheResponseKey"}} {
@@ -570,11 +579,11 @@ func c17Sibling(c *Ctx, p *Prog) {
 		}
 		kw := Calls(wf, ModPath+"/app/cache."+pair[2])
 		kr := Calls(rf, ModPath+"/app/cache."+pair[2])
-		ok := len(kw) == 1 && len(kr) == 1
+		ok := len(kw) == 1 && len(kr) == 1 && len(CallOf(kw[0]).Args) == 2 && len(CallOf(kr[0]).Args) == 2
 		if ok {
 			aw, ar := CallOf(kw[0]).Args, CallOf(kr[0]).Args
 			ok = PathOf(aw[0]) == P(wf, 2)+".BackendID" && PathOf(aw[1]) == P(wf, 2)+".RequestID" && PathOf(ar[0]) == P(rf, 2) && PathOf(ar[1]) == P(rf, 3)
 		}
-		c.Check("C17.S", "memcache-key-roles:"+pair[2], p, 0, ok, "write and read build the cache key with "+pair[2]+"(backendID, requestID) in the same roles", "the cache key of "+pair[0]+"/"+pair[1]+" is not built by "+pair[2]+" from (backend ID, request ID) in the same roles on both sides: entries of different backends/requests can be confused")
+		c.Check(rule, "memcache-key-roles:"+pair[2], p, 0, ok, "write and read build the cache key with "+pair[2]+"(backendID, requestID) in the same roles", "the cache key of "+pair[0]+"/"+pair[1]+" is not built by "+pair[2]+" from (backend ID, request ID) in the same roles on both sides: entries of different backends/requests can be confused")
 	}
 }
